@@ -98,6 +98,9 @@ def build_template(x):
             rule["EC2SecurityGroupName"] = x["gname"]
         if x.get("gid") is not None:
             rule["EC2SecurityGroupId"] = x["gid"]
+        if x.get("gowner") is not None:
+            # the account that owns a source group is not a source: alone it leaves the rule open (audit experiment 5)
+            rule["EC2SecurityGroupOwnerId"] = x["gowner"]
         if kind == "rds_sg":
             rules = [RDS_FILLER, rule] if x.get("pos") else [rule, RDS_FILLER]
             res = {"Type": "AWS::RDS::DBSecurityGroup", "Properties": {"GroupDescription": "d", "DBSecurityGroupIngress": rules}}
@@ -748,6 +751,8 @@ def gen_rds_case(rng):
         if rng.random() < 0.3:
             x["explicit_null"] = True
     x["gname"], x["gid"] = gen_group(rng)
+    if rng.random() < 0.3:
+        x["gowner"] = rng.choice(["123456789012", "", "000000000000"])
     if isinstance(x.get("cidr4"), int):
         x["via"] = "literal"
     if x["via"] != "literal":
